@@ -144,7 +144,8 @@ def run(wd, root, workers=16, env=None, timeout=3600, coverage=False, simulate=N
         heap = "4g"
     jtmp = os.path.join(wd, "_tmp")      # TLC creates a tlc-* directory under java.io.tmpdir on every start: keep it in the scratch dir
     os.makedirs(jtmp, exist_ok=True)
-    cmd = ["java", "-XX:+UseParallelGC", "-Xmx" + heap, "-Djava.io.tmpdir=" + jtmp, "-cp", JAR, "tlc2.TLC",
+    # (-Xss: recursive operators over recorded traces of a few hundred steps overflow the default thread stack)
+    cmd = ["java", "-XX:+UseParallelGC", "-Xmx" + heap, "-Xss256m", "-Djava.io.tmpdir=" + jtmp, "-cp", JAR, "tlc2.TLC",
            "-workers", str(workers), "-metadir", os.path.join(wd, "states"),
            "-noGenerateSpecTE", "-nowarning", "-config", root + ".cfg"]
     if coverage:
